@@ -3,6 +3,7 @@ CONSTANTS
   CL = 12
   MaxWin = 5
 INVARIANT InterleaveOK
+INVARIANT IdxOrderIsRoundRobin
 INVARIANT WindowsInside
 INVARIANT WindowLength
 CHECK_DEADLOCK FALSE
